@@ -23,7 +23,7 @@ func init() {
 }
 
 func runC03(r *core.Run) {
-	r.Rule("(a) sequential histories minting every quote in every state (unpaid, paid, issued, re-mint with other outputs, bad outputs then corrected request, internal settlement, restarts) judged per quote: #issuances <= #payments, none before payment, sum <= amount; (b) NUT-20 tamper matrix on locked quotes (each must fail and leave the quote usable for the valid request); (c) controlled-scheduler enumeration of all DB/LN-call interleavings of mint(O1)||mint(O2), mint||late 'invoice settled' notification, mint||poll, internal-settlement||mint on one quote, each followed by a further mint attempt; thorough adds sampled three-way schedules, porcupine stress and -race. Non-trivial = sequential operations on a quote that was paid, tamper cases, and schedules in which both threads took a step before the other finished")
+	r.Rule("(a) sequential histories minting every quote in every state (unpaid, paid, issued, re-mint with other outputs, bad outputs then corrected request, internal settlement, restarts) judged per quote: #issuances <= #payments, none before payment, sum <= amount; (b) NUT-20 tamper matrix on locked quotes (each must fail and leave the quote usable for the valid request); (c) controlled-scheduler enumeration, up to a preemption bound (quick 2, thorough 5), of the DB/LN-call interleavings of mint(O1)||mint(O2), mint||late 'invoice settled' notification, mint||poll, internal-settlement||mint on one quote, each followed by a further mint attempt; thorough adds sampled three-way schedules, porcupine stress and -race. Non-trivial = sequential operations on a quote that was paid, tamper cases, and schedules in which both threads took a step before the other finished")
 	r.Assume("payments of a quote = Lightning settlement of its invoice (at most one) + internal settlements by melts; DB/LN-call interleavings are the observable ones (DESIGN 1.1)")
 	if os.Getenv("VERIF_RACE_CHILD") != "" {
 		c03Stress(r) // the -race child repeats the concurrent workload only
@@ -419,11 +419,11 @@ func c03Schedules(r *core.Run) {
 		}
 		var seq int64
 		var mu sync.Mutex
-		bound := -1 // thorough: every schedule
+		bound, maxExec := 5, 10000 // thorough: every schedule with at most five preemptions, capped per scenario
 		if quick(r) {
 			bound = 2 // quick: every schedule with at most two preemptions
 		}
-		n, complete := sched.ExploreBounded(16, 40000, bound, func(prefix []string) sched.Result {
+		n, complete := sched.ExploreBounded(16, maxExec, bound, func(prefix []string) sched.Result {
 			mu.Lock()
 			seq++
 			id := seq
@@ -446,14 +446,14 @@ func c03Schedules(r *core.Run) {
 			return res
 		})
 		r.Count("schedules:"+tag, int64(n))
+		fmt.Fprintf(os.Stderr, "C03 %s: %d schedules (preemption bound %d, complete=%v)\n", tag, n, bound, complete)
 		if !complete {
 			allComplete = false
+			r.Count("enumerations_truncated_at_cap", 1)
 		}
 	}
-	r.Extra("schedule_enumerations_exhaustive", allComplete && !quick(r))
-	if quick(r) {
-		r.Extra("schedule_bound", "all schedules with at most 2 preemptions (thorough tier: all schedules)")
-	}
+	r.Extra("schedule_enumerations_complete_within_bound", allComplete)
+	r.Extra("schedule_bound", "every schedule with at most 2 (quick) / 5 (thorough) preemptions, at most 10000 per scenario; scheduling points: before and after every DB/LN call")
 	if quick(r) {
 		return
 	}
